@@ -66,6 +66,9 @@ func c01NewStore(t *testing.T, dir, id string) (*store.Store, *c01Layer) {
 	st := store.New(&store.Config{DBConf: store.NewDBConfig(), Dir: dir, ID: id}, ly)
 	st.NoSnapshotOnClose = true
 	st.SnapshotThreshold = 1 << 40
+	// no background reaping: an Open right after RecoverNode's snapshot can be refused while the
+	// reaper holds the snapshot store's lock, and a failed Open cannot be cleaned up from this package
+	st.SnapshotReapThreshold = 1 << 20
 	st.HeartbeatTimeout, st.ElectionTimeout, st.LeaderLeaseTimeout = 300*time.Millisecond, 300*time.Millisecond, 300*time.Millisecond
 	return st, ly
 }
@@ -368,18 +371,7 @@ func c01Program(t *testing.T, rep *vfReport, r *vfRng, nReq int, nondetEndpoint 
 			t.Fatal(err)
 		}
 		if err := a.st.Open(); err != nil {
-			// known C33 finding: start-up after RecoverNode can collide with the background
-			// reaper its snapshot woke up; the recovery itself is done, a second start works
-			if !strings.Contains(err.Error(), "failed to load any existing snapshots") {
-				t.Fatalf("recover open: %v", err)
-			}
-			rep.Count("recovery-startup-aborted-by-concurrent-reap")
-			a.ly.Close()
-			time.Sleep(300 * time.Millisecond)
-			a.st, a.ly = c01NewStore(t, a.dir, id)
-			if err := a.st.Open(); err != nil {
-				t.Fatalf("recover open (second start): %v", err)
-			}
+			t.Fatalf("recover open: %v", err)
 		}
 		c01Ready(t, a.st)
 		if got := c01Table(a.st); got == live2 {
@@ -416,6 +408,12 @@ func c01EndpointTable(t *testing.T, rep *vfReport) {
 			}
 			return nil, 0, nil
 		},
+		queryFn: func(qr *command.QueryRequest) ([]*command.QueryRows, uint64, error) {
+			for _, s := range qr.Request.Statements {
+				seen = append(seen, s.Sql)
+			}
+			return nil, 0, nil
+		},
 		requestFn: func(eqr *command.ExecuteQueryRequest) ([]*command.ExecuteQueryResponse, uint64, uint64, error) {
 			for _, s := range eqr.Request.Statements {
 				seen = append(seen, s.Sql)
@@ -438,6 +436,7 @@ func c01EndpointTable(t *testing.T, rep *vfReport) {
 		{"/db/execute?queue", "queued", "/db/execute?queue&wait&noleader&timeout=10s", "application/json", body},
 		{"/db/request", "request", "/db/request", "application/json", body},
 		{"/db/load(sql-text)", "loadtext", "/db/load", "text/plain", text},
+		{"/db/query?level=strong", "querystrong", "/db/query?level=strong", "application/json", `["SELECT random()", "SELECT julianday('now')"]`},
 	} {
 		seen = nil
 		resp, err := http.Post(host+e.path, e.ct, bytes.NewReader([]byte(e.body)))
